@@ -11,7 +11,9 @@ package crypto_test
 // be refused.
 
 import (
+	"crypto/ed25519"
 	"crypto/sha512"
+	"encoding/binary"
 	"encoding/hex"
 	"fmt"
 	"math/rand"
@@ -65,6 +67,37 @@ func vC14Privs(vec []*vC14Ident, signers []int) []*crypto.Key {
 		out[i] = &k
 	}
 	return out
+}
+
+// vC14RefKey is an independent computation of the weighted aggregate key the scheme documents:
+// transcript = be32(|signers|) || (be32(i) || key_i)*, coefficient_i = H512(domain || transcript || be32(i) || key_i)
+// reduced wide, key = sum coefficient_i * P_i. Coefficients that depend on each signer's own index and key are
+// what makes rogue-key cancellation impossible; a signature that verifies under the repository's own verifier
+// but not under this key was made for a differently weighted key.
+func vC14RefKey(publics []*crypto.Key, signers []int) ([]byte, bool) {
+	transcript := binary.BigEndian.AppendUint32(nil, uint32(len(signers)))
+	for _, i := range signers {
+		transcript = binary.BigEndian.AppendUint32(transcript, uint32(i))
+		transcript = append(transcript, publics[i][:]...)
+	}
+	sum := edwards25519.NewIdentityPoint()
+	for _, i := range signers {
+		h := sha512.New()
+		h.Write([]byte("mixin-aggregate-coefficient-v1"))
+		h.Write(transcript)
+		h.Write(binary.BigEndian.AppendUint32(nil, uint32(i)))
+		h.Write(publics[i][:])
+		c, err := edwards25519.NewScalar().SetUniformBytes(h.Sum(nil))
+		if err != nil {
+			return nil, false
+		}
+		p, err := edwards25519.NewIdentityPoint().SetBytes(publics[i][:])
+		if err != nil {
+			return nil, false
+		}
+		sum.Add(sum, edwards25519.NewIdentityPoint().ScalarMult(c, p))
+	}
+	return sum.Bytes(), true
 }
 
 func vC14Ints(a []int) []int { return append([]int{}, a...) }
@@ -207,6 +240,15 @@ func TestVerif_C14(t *testing.T) {
 			r.Violation("C14|AggregateVerify|honest-signature-rejected|"+sizeClass, "the signature does not verify for the vector, signer set and message it was made for: "+err.Error(),
 				desc(map[string]any{"signature": hex.EncodeToString(good[:])}))
 			continue
+		}
+		if refKey, ok := vC14RefKey(publics, signers); ok {
+			if !ed25519.Verify(ed25519.PublicKey(refKey), msg[:], good[:]) {
+				r.Violation("C14|AggregateSign|signature-not-valid-under-reference-weighted-key|"+sizeClass,
+					"a signature accepted by AggregateVerify does not verify (crypto/ed25519) under the independently computed key weighted by per-signer transcript coefficients: the aggregate key is not bound to each signer's own index and key",
+					desc(map[string]any{"signature": hex.EncodeToString(good[:])}))
+			} else {
+				r.Count("honest_signatures_valid_under_reference_key", 1)
+			}
 		}
 		r.Count("honest_signatures_verified", 1)
 		sizeHist[fmt.Sprintf("n%03d-%03d", (n-1)/50*50+1, (n-1)/50*50+50)]++
